@@ -7,6 +7,11 @@ COMMON_ASSUMPTIONS = [
 ]
 
 PROPS = {
+    "C17": {
+        "kinds": [("C17", 1500, 30000)],
+        "rule": "one predefined tree per case (six activations, argmax, class characterisation, inf_norm, from_poly with/without else-branch, from_slice+compose+remove_axes), dims 1-5, random parameters incl. invalid ones; 8-13 inputs per case on and around every breakpoint / with ties; non-trivial = generator returns a tree; distinct by case text",
+        "assumptions": COMMON_ASSUMPTIONS + ["hard sigmoid: the slope constant is the f64 value of 1/6 (checked to be within 2^-50 of 1/6); evaluation with it is compared up to rounding"],
+    },
     "C02": {
         "kinds": [("C02", 600, 8000), ("C02T", 0, 3000)],
         "rule": "one pair of random trees (K in {2,4}, total/partial, leaf-rooted operands, index holes) composed without pruning, or one apply_func; 8-10 lattice inputs per case, half of them moved onto a decision hyperplane; non-trivial = both operands have at least 3 nodes; distinct by case text",
